@@ -36,8 +36,9 @@ def cfault(p):
 
 
 def cobs(snap, outcomes):
-    return (f'(mkObs {clist([ctuple([cnat(t), cstr(r)]) for t, r in snap["finals"]])} {cnat(snap["leftovers"])} '
-            f'{clist([ctuple([cnat(t), cstr(r)]) for t, r in snap["fetches"]])} {clist([cnat(o) for o in outcomes])})')
+    """a checkpoint: the raw directory listing (classified by Store.Paths inside Coq), the fetch log, the outcomes"""
+    lst = clist([ctuple([cstr(rel), 'None' if tag is None else f'(Some {ctuple([cnat(tag[0]), cstr(tag[1])])})']) for rel, tag in snap['listing']])
+    return (f'{lst} {clist([ctuple([cnat(t), cstr(r)]) for t, r in snap["fetches"]])} {clist([cnat(o) for o in outcomes])}')
 
 
 def cloader(t, r, plan, i):
@@ -66,7 +67,9 @@ def render(case, obs):
                 i += 1
             elif op[0] == 'clear':
                 cmds.append('CAct ClearAll' if op[1] is None else f'CAct (ClearType {op[1]})')
-            cmds.append(f'CCheck {cobs(st["snap"], st["outcomes"])}')
+            if st.get('resolved'):
+                cmds.append(f'CResolve {st["resolved"][0]} {cstr(st["resolved"][1])} {cstr(st["resolved"][2])}')
+            cmds.append(f'CListing {cobs(st["snap"], st["outcomes"])}')
     elif case['kind'] == 'kill':
         i = 0
         for op in case['before']:
@@ -77,15 +80,15 @@ def render(case, obs):
         # a kill between write() and close(): the temporary file exists and is not complete - the model state before its write step
         cmds += [f'CAct (Step {i})'] * (4 if k == 'close' else k - 1)
         cmds.append(f'CAct (Kill {i})')
-        cmds.append(f'CCheck {cobs(obs["snap1"], obs["outcomes1"])}')
+        cmds.append(f'CListing {cobs(obs["snap1"], obs["outcomes1"])}')
         i += 1
-        cmds += [f'CAct (Spawn {cloader(t, r, None, i)})', f'CFinish {i}', f'CCheck {cobs(obs["snap2"], obs["outcomes2"])}']
+        cmds += [f'CAct (Spawn {cloader(t, r, None, i)})', f'CFinish {i}', f'CListing {cobs(obs["snap2"], obs["outcomes2"])}']
     elif case['kind'] == 'race':
         for i, (t, r, plan) in enumerate(case['loaders']):
             cmds.append(f'CAct (Spawn {cloader(t, r, plan, i)})')
         cmds += [f'CAct (Step {i})' for i in case['schedule']]
         cmds += [f'CFinish {i}' for i in range(len(case['loaders']))]
-        cmds.append(f'CCheck {cobs(obs["snap"], obs["outcomes"])}')
+        cmds.append(f'CListing {cobs(obs["snap"], obs["outcomes"])}')
     return ('scenario', f'(mkSCase {remote_table(rel)} {clist(["(" + c + ")" for c in cmds])})')
 
 
